@@ -165,12 +165,16 @@ def open_with_assignment(case):
 
 
 # ------------------------------------------------------------------------------------ brute-force geometry
-def shape_geoms(shape):
-    """shapely geometries of a commonroad shape, from its raw parameters (no use of shape.shapely_object)"""
+def shape_geoms(shape, outer=False):
+    """shapely geometries of a commonroad shape, from its raw parameters (no use of shape.shapely_object).
+    A Circle is judged with two discs: the library intersects lanelets with a disc of half the radius (recorded
+    finding of C06, pinned by tests/common/test_file_reader.py::test_open_all).  C07 is about the bookkeeping, so a
+    lanelet is 'definitely met' when the inner disc (radius/2) meets it and 'definitely not met' when the disc of the
+    full radius (outer=True) misses it; lanelets in between are not judged."""
     if isinstance(shape, ShapeGroup):
         out = []
         for m in shape.shapes:
-            out += shape_geoms(m)
+            out += shape_geoms(m, outer)
         return out
     if isinstance(shape, Rectangle):
         c, s = math.cos(shape.orientation), math.sin(shape.orientation)
@@ -179,18 +183,18 @@ def shape_geoms(shape):
         return [SPolygon([(cx + c * dx - s * dy, cy + s * dx + c * dy)
                           for dx, dy in ((-hl, -hw), (hl, -hw), (hl, hw), (-hl, hw))])]
     if isinstance(shape, Circle):
-        # the disc the implementation uses for a Circle has half the radius (known finding of C06, kept by
-        # tests/common/test_file_reader.py::test_open_all); C07 judges the bookkeeping, so it follows the library here
-        return [SPoint(float(shape.center[0]), float(shape.center[1])).buffer(shape.radius / 2.0)]
+        return [SPoint(float(shape.center[0]), float(shape.center[1])).buffer(shape.radius if outer
+                                                                              else shape.radius / 2.0)]
     return [SPolygon([(float(px), float(py)) for px, py in shape.vertices])]
 
 
-def decide(ring, geoms):
-    """does the lanelet polygon meet one of the geometries?  True / False / None (within EPS of the boundary)"""
+def decide(ring, inner, outer):
+    """does the lanelet polygon meet the shape?  True / False / None (within EPS of the boundary, or between the two
+    discs of a circle)"""
     grown, shrunk = ring.buffer(EPS), ring.buffer(-EPS)
-    if any(shrunk.intersects(g) for g in geoms):
+    if any(shrunk.intersects(g) for g in inner):
         return True
-    if not any(grown.intersects(g) for g in geoms):
+    if not any(grown.intersects(g) for g in outer):
         return False
     return None
 
@@ -215,13 +219,15 @@ class Geo:
             for t in ts:
                 st = o.initial_state if t == t0 else o.prediction.trajectory.state_at_time_step(t)
                 pos = st.position
-                self.centre[(od["id"], t)] = self._sets([SPoint(float(pos[0]), float(pos[1]))])
-                self.shape[(od["id"], t)] = self._sets(shape_geoms(o.occupancy_at_time(t).shape))
+                pt = [SPoint(float(pos[0]), float(pos[1]))]
+                occ = o.occupancy_at_time(t).shape
+                self.centre[(od["id"], t)] = self._sets(pt, pt)
+                self.shape[(od["id"], t)] = self._sets(shape_geoms(occ), shape_geoms(occ, outer=True))
 
-    def _sets(self, geoms):
+    def _sets(self, inner, outer):
         yes, maybe = set(), set()
         for lid, ring in self.rings.items():
-            d = decide(ring, geoms)
+            d = decide(ring, inner, outer)
             if d is True:
                 yes.add(lid)
             elif d is None:
@@ -780,7 +786,7 @@ def run(ctx):
     ctx.build_props(extra_targets=["Corr/C07.vo"])
     if ctx.tier == "thorough":
         ctx.coqchk()
-    n = ctx.n(260, 4000)
+    n = ctx.n(800, 12000)
     items = []
     undecided = 0
     for c in load_corpus(ctx.prop):
@@ -796,7 +802,8 @@ def run(ctx):
         record(ctx, case, trace, info)
         undecided += info["undecided"]
         if failure:
-            ctx.fail(failure[0], failure[1], shrink(case))
+            known = any(f["signature"] == failure[0] for f in ctx.failures)
+            ctx.fail(failure[0], failure[1], case if known else shrink(case))
             continue  # the model describes the repaired code; a violating history is reported by the oracle
         items.append((case, trace, info))
     ctx.coverage["near_boundary_decisions_not_judged"] = undecided
